@@ -576,6 +576,8 @@ func (p *parser) BasicParser(urlOrRef string, baseUrl *Url, url *Url, stateOverr
 						return nil, err
 					}
 				}
+				// When collapsing consecutive slashes, an empty last segment is replaced by the segment following it.
+				replaceLast := p.opts.collapseConsecutiveSlashes && url.IsSpecialScheme() && !url.path.isEmpty() && len(url.path.p[len(url.path.p)-1]) == 0
 				if isDoubleDotPathSegment(buffer.String()) {
 					url.path.shortenPath(url.scheme)
 
@@ -583,9 +585,11 @@ func (p *parser) BasicParser(urlOrRef string, baseUrl *Url, url *Url, stateOverr
 						url.path.addSegment("")
 					}
 				} else if isSingleDotPathSegment(buffer.String()) && r != '/' && !url.isSpecialSchemeAndBackslash(r) {
-					url.path.addSegment("")
+					if !replaceLast {
+						url.path.addSegment("")
+					}
 				} else if !isSingleDotPathSegment(buffer.String()) {
-					if url.scheme == "file" && url.path.isEmpty() && isWindowsDriveLetter(buffer.String()) {
+					if url.scheme == "file" && (url.path.isEmpty() || (replaceLast && len(url.path.p) == 1)) && isWindowsDriveLetter(buffer.String()) {
 						// replace second code point in buffer with U+003A (:).
 						// This is a (platform-independent) Windows drive letter quirk.
 						if !p.opts.skipWindowsDriveLetterNormalization {
@@ -594,7 +598,7 @@ func (p *parser) BasicParser(urlOrRef string, baseUrl *Url, url *Url, stateOverr
 							buffer.WriteString(b[0:1] + ":" + b[2:])
 						}
 					}
-					if !p.opts.collapseConsecutiveSlashes || !url.IsSpecialScheme() || url.path.isEmpty() || len(url.path.p[len(url.path.p)-1]) > 0 {
+					if !replaceLast {
 						url.path.addSegment(buffer.String())
 					} else {
 						url.path.p[len(url.path.p)-1] = buffer.String()
